@@ -8,6 +8,7 @@ symbolic.  Attribute NAMES are concrete per cell (names of attributes the bundle
 hashes them (`final_attributes[name] = ...`), which would make the solver enumerate them one by one.
 """
 import os
+from types import SimpleNamespace as NS
 
 from vp import reg as R
 from vp.symstr import fixed, over_class, py_over_class, at_most, py_at_most
@@ -552,6 +553,119 @@ _REF_T = ["hed.schema.hed_schema.HedSchema.can_save",
           "hed.schema.hed_schema.HedSchema.save_as_xml", "hed.schema.hed_schema.HedSchema.save_as_dataframes"]
 
 
+# ================================================================== section traversal (merged / unmerged selection)
+class _TEntry:
+    """what Schema2Base's traversal reads of an entry: name, attributes, has_attribute, units"""
+
+    def __init__(self, name, in_lib, units=None):
+        self.name = name
+        self.attributes = {HedKey.InLibrary: "lib"} if in_lib else {}
+        self.units = units if units is not None else {}
+
+    def has_attribute(self, key, return_value=False):
+        return key in self.attributes
+
+
+class _TSchema:
+    """a schema as process_schema sees it: save-ability, partnership, header, sections"""
+    filename = None
+    prologue = ""
+    epilogue = ""
+
+    def __init__(self, partnered, unit_classes, value_classes):
+        self.with_standard = "8.3.0" if partnered else ""
+        self.unit_classes = unit_classes
+        self._sections = {HedSectionKey.ValueClasses: value_classes}
+        self.tags = NS(all_entries=[])
+
+    def can_save(self):
+        return True
+
+    def get_save_header_attributes(self, save_merged):
+        return {}
+
+    def __getitem__(self, key):
+        return self._sections.get(key, {})
+
+
+class _Recorder(Schema2Base):
+    """the real traversal (process_schema, _output_units, _output_section, _should_skip) with recording writers"""
+
+    def _initialize_output(self):
+        self.output = []
+
+    def _output_header(self, attributes, prologue):
+        pass
+
+    def _output_footer(self, epilogue):
+        pass
+
+    def _start_section(self, key_class):
+        node = [str(key_class), True, []]
+        self.output.append(node)
+        return node
+
+    def _end_tag_section(self):
+        pass
+
+    def _write_tag_entry(self, tag_entry, parent=None, level=0):
+        raise AssertionError("no tags in this harness")
+
+    def _write_entry(self, entry, parent_node, include_props=True):
+        node = [entry.name, True if include_props else False, []]
+        parent_node[2].append(node)
+        return node
+
+
+def _expected_sections(partnered, merged, classes, units, values):
+    """reference: a partnered schema saved unmerged lists exactly its library content -- library unit classes and
+    value classes with their properties, library units, and a standard unit class only as a bare container (no
+    properties) when it holds a library unit; every other save lists everything with properties"""
+    only_lib = partnered and not merged
+    uc = []
+    for i in range(len(classes)):
+        kids = [[f"u{i}{j}", True, []] for j in range(len(units[i])) if units[i][j] or not only_lib]
+        if not only_lib or classes[i]:
+            uc.append([f"c{i}", True, kids])
+        elif kids:
+            uc.append([f"c{i}", False, kids])
+    vc = [[f"v{i}", True, []] for i in range(len(values)) if values[i] or not only_lib]
+    return uc, vc
+
+
+def section_traversal(partnered: bool, merged: bool, c0: bool, c1: bool, c2: bool, u00: bool, u01: bool, u10: bool,
+                      u11: bool, u20: bool, v0: bool, v1: bool) -> bool:
+    """
+    pre: _pin_bool("VP_P", partnered) and _pin_bool("VP_MG", merged)
+    post: _
+    """
+    classes = [c0, c1, c2]
+    units = [[u00, u01], [u10, u11], [u20]]
+    values = [v0, v1]
+    ucs = {}
+    for i in range(3):
+        us = {}
+        for j in range(len(units[i])):
+            us[f"u{i}{j}"] = _TEntry(f"u{i}{j}", units[i][j])
+        ucs[f"c{i}"] = _TEntry(f"c{i}", classes[i], us)
+    vcs = {}
+    for i in range(2):
+        vcs[f"v{i}"] = _TEntry(f"v{i}", values[i])
+    out = _Recorder().process_schema(_TSchema(partnered, ucs, vcs), save_merged=merged)
+    got_uc = [n for n in out if n[0] == str(HedSectionKey.UnitClasses)]
+    got_vc = [n for n in out if n[0] == str(HedSectionKey.ValueClasses)]
+    if len(got_uc) != 1 or len(got_vc) != 1:
+        return False
+    want_uc, want_vc = _expected_sections(partnered, merged, classes, units, values)
+    return got_uc[0][2] == want_uc and got_vc[0][2] == want_vc
+
+
+def _pin_bool(name, value):
+    want = R.env_int(name)
+    return want is None or value == (want == 1)
+
+
+
 def _c(shape, n, strip=0, w="wiki", **kw):
     return dict({"VP_SHAPE": shape, "VP_N": n, "VP_STRIP": strip, "VP_W": w}, **kw)
 
@@ -680,6 +794,24 @@ HARNESSES = [
              "header text lists exactly the saved pairs (independent reading) and is read back to the same pairs",
         oracle="models/wiki_line_ref.py (header_pairs)", stubs=[_STUB_REPR, "loader object created with __new__"],
         outside=_OUTSIDE + "; header values containing a double quote or a line break"),
+    R.H("section_traversal",
+        ["hed.schema.schema_io.schema2base.Schema2Base.process_schema",
+         "hed.schema.schema_io.schema2base.Schema2Base._output_units",
+         "hed.schema.schema_io.schema2base.Schema2Base._output_section",
+         "hed.schema.schema_io.schema2base.Schema2Base._should_skip"],
+        quick=R.tier(cells=R.product_cells([{"VP_P": 0}, {"VP_P": 1}], [{"VP_MG": 0}, {"VP_MG": 1}]), timeout=300,
+                     bound="three unit classes holding 2, 2 and 1 units and two value classes, every combination of "
+                           "inLibrary on each of the ten entries, partnered or not, merged or unmerged save"),
+        what="which entries the format-independent traversal hands to the writers: a partnered schema saved "
+             "unmerged lists exactly its library entries (a standard unit class only as a property-less container "
+             "of its library units, decided per class); every other save lists every entry with its properties, "
+             "in section order",
+        oracle="inline (_expected_sections)",
+        stubs=["recording subclass of Schema2Base (writers append (name, include_props, children)); stub schema "
+               "and entries exposing what the traversal reads (with_standard, can_save, sections, name, attributes, "
+               "has_attribute, units); no tags"],
+        outside="the tag section (_output_tags level adjustment); what the per-format writers do with an entry "
+                "(line_roundtrip/attr_roundtrip); more than three unit classes"),
     R.H("save_refusal", _REF_T,
         quick=R.tier(cells=[{"VP_N": 5}], timeout=400, path_timeout=60, bound="library attribute: any text <= 5 chars"),
         thorough=R.tier(cells=[{"VP_N": 8}], timeout=2400, path_timeout=120,
